@@ -105,6 +105,18 @@ func c02(r *Report) propMeta {
 	r.NotAfter("resolve-before-expiry (invariant behind the accepted MustGetRequest panic)", "x/oracle.EndBlocker", CallEff("Keeper.ResolveRequest"), CallEff("Keeper.ProcessExpiredRequests"))
 	r.NotAfter("aggregate-before-expiry (invariant behind the accepted MustGetSigningAttempt panic)", "x/tss/keeper.Keeper.HandleSigningEndBlock", CallEff("Keeper.AggregatePartialSignatures"), CallEff("Keeper.HandleExpiredSignings"))
 
+	r.Rule("C02.R10", "E17 error-return census of begin/end-block roots")
+	r.ErrorCensus("abci-errors", fnSet(roots.ABCI), abciErrTable, 5)
+	// the one repo-made error in the table is unreachable because of this gate (finding F4: price_quorum "0" reached the
+	// median with an empty list and the feeds end-blocker returned its error)
+	r.Gate("median-needs-available-power", "x/feeds/keeper.Keeper.CalculatePrice", CallEff("types.MedianValidatorPriceInfos"), []Cond{
+		{Op: "BOOL", A: []string{"^call:Int.IsPositive", "extract:1", "call:types.CalculatePricesPowers"}, Want: true, Desc: "availablePower.IsPositive()"}}, GateOpts{})
+
+	r.Rule("C02.R11", "E17 error-return census of the delegation hooks (run from begin-block slashing)")
+	if r.HookChain("hook-chain") {
+		r.ErrorCensus("hook-errors", w.delegationHookRoots(), hookErrTable, 3)
+	}
+
 	r.Rule("C02.R9", "E16 unsigned-subtraction census")
 	r.UnsignedSubCensus("usub", fnSet(roots.Msg, roots.ABCI, roots.IBC, roots.Hook, roots.Ante), c02UsubAllow, 8)
 
@@ -153,7 +165,7 @@ func c02(r *Report) propMeta {
 			"R2 every explicit panic / Must* call reachable without a recover barrier from a begin/end-block root is in the frozen accepted table (a new one fails with its call path)",
 			"R3 signing creation / packet sending reached from end-block sits under a CacheContext whose writeFn is gated by err==nil, and cross-module routes sit under a defer-recover that assigns the named error result",
 			"R4 orderBeginBlockers/orderEndBlockers are literals of constants containing every module that implements Begin/EndBlock exactly once",
-			"R9 every unsigned subtraction in consensus-reachable repo code is implied non-wrapping by the comparisons on all paths to it (constants included) or is one of the reviewed data-structure invariants (a wrapped value ends as an out-of-range index, an endless loop or a silently bypassed bound)", "R8 the two atomicity axioms (baseapp.runTx branch-and-write-on-success under recover; ibc-go RecvPacket cache-and-write-on-successful-ack) are read off the dependency source at the go.mod versions", "R7 every error that begin/end-block code tests and then does not propagate is in a frozen, justified table (16 sites today); a new swallowed error fails with its call path", "R6 every governance parameter that consensus-reachable code divides by (integer / or %) is validated positive, and every one used as a percentage (NewDecWithPrec(x,2)) is validated <= 100 in its Params.Validate (finding F3, fixed)", "R5 bandrng.NewRng is called only by the two committee selectors and its inputs derive only from the rolling seed, the id/nonce parameter and the chain id",
+			"R11 the staking delegation hooks are reached from begin-block slashing with their error returned to BeginBlocker (nine facts read off the SDK source); the origins of the errors the repo's hooks return are censused the same way: the lock veto ErrUnableToUndelegate is such an origin (known finding F5: slashing a redelegation of a delegator whose power is locked halts the chain)", "R10 every origin of an error that a begin/end-block root can return (a returned error fails FinalizeBlock on every node, like a panic) is followed interprocedurally to a fresh error or an SDK keeper call and must be in a reviewed table of 12; the only repo-made one (median of an empty list) is gated by availablePower > 0 (finding F4)", "R9 every unsigned subtraction in consensus-reachable repo code is implied non-wrapping by the comparisons on all paths to it (constants included) or is one of the reviewed data-structure invariants (a wrapped value ends as an out-of-range index, an endless loop or a silently bypassed bound)", "R8 the two atomicity axioms (baseapp.runTx branch-and-write-on-success under recover; ibc-go RecvPacket cache-and-write-on-successful-ack) are read off the dependency source at the go.mod versions", "R7 every error that begin/end-block code tests and then does not propagate is in a frozen, justified table (16 sites today); a new swallowed error fails with its call path", "R6 every governance parameter that consensus-reachable code divides by (integer / or %) is validated positive, and every one used as a percentage (NewDecWithPrec(x,2)) is validated <= 100 in its Params.Validate (finding F3, fixed)", "R5 bandrng.NewRng is called only by the two committee selectors and its inputs derive only from the rolling seed, the id/nonce parameter and the chain id",
 		},
 		Undecided: []string{"feasibility of the accepted panic sites (each rests on a store invariant recorded in the table, not proven)", "determinism of dependencies (SDK, go-owasm, IAVL)", "equality of gas across nodes beyond the absence of nondeterministic constructs"},
 		Assume:    []string{"begin/end-block panics are not recovered by the SDK; message panics are (runTx)", "VTA call graph over-approximates dynamic dispatch in repo code", "KV iterators are ordered"},
@@ -302,4 +314,28 @@ var c02UsubAllow = []usubAllow{
 	{"x/tss/keeper.Keeper.HandleExpiredGroups", 1, "groupID - 1: groupID starts at lastExpired + 1 >= 1"},
 	{"x/tss/keeper.msgServer.SubmitDKGRound2", 1, "group.Size_ - 1: groups are created with at least one member (CreateGroup rejects empty member lists)"},
 	{"x/tss/types.FindMemberSlot", 2, "to - 1 (- 1): member ids start at 1 (ValidateBasic rejects id 0; ids are assigned from 1) and from != to"},
+}
+
+// abciErrTable: reviewed origins of errors that a begin/end-block root can return.
+var abciErrTable = []errAllow{
+	{"x/bandtss/keeper.Keeper.AllocateTokens", "external:x/bandtss/types.BankKeeper.SendCoinsFromModuleToAccount", "pays out of the distribution module what SendCoinsFromModuleToModule moved into it in the same call (C14.R3/R4: sum of payouts <= transferred); members are plain accounts"},
+	{"x/bandtss/keeper.Keeper.AllocateTokens", "external:x/bandtss/types.BankKeeper.SendCoinsFromModuleToModule", "moves RewardPercentage% of the fee collector's own balance; <= balance because the percentage is validated <= 100 (finding F3, R6)"},
+	{"x/bandtss/keeper.Keeper.AllocateTokens", "external:x/bandtss/types.DistrKeeper.FundCommunityPool", "funds the community pool from the distribution module with the remainder of what was just transferred in"},
+	{"x/bandtss/keeper.Keeper.AllocateTokens", "external:x/bandtss/types.DistrKeeper.GetCommunityTax", "store read of the distribution params (collections.Item.Get fails only on a corrupt store)"},
+	{"x/feeds/keeper.Keeper.CalculatePrices", "external:cosmossdk.io/math.LegacyNewDecFromStr", "parses Params.PriceQuorum, which Params.Validate parses with the same function before it is stored"},
+	{"x/feeds/keeper.Keeper.CalculatePrices", "external:x/feeds/types.StakingKeeper.IterateBondedValidatorsByPower", "store iteration; the callback never returns an error"},
+	{"x/feeds/keeper.Keeper.CalculatePrices", "external:x/feeds/types.StakingKeeper.TotalBondedTokens", "bank balance read of the bonded pool"},
+	{"x/feeds/types.MedianWeightedPrice", "fresh:x/feeds/types.ErrInvalidWeightedPrices", "reached only with an empty / zero-weight list; CalculatePrice calls the median only when the available power is positive (gate `median-needs-available-power` below; finding F4)"},
+	{"x/oracle/keeper.Keeper.AllocateTokens", "external:x/oracle/types.BankKeeper.SendCoinsFromModuleToModule", "moves OracleRewardPercentage% of the fee collector's balance; <= balance because the percentage is validated <= 100 (finding F3, R6)"},
+	{"x/oracle/keeper.Keeper.AllocateTokens", "external:x/oracle/types.DistrKeeper.AllocateTokensToValidator", "bookkeeping in the distribution store for a bonded validator taken from the vote infos"},
+	{"x/oracle/keeper.Keeper.AllocateTokens", "external:x/oracle/types.DistrKeeper.GetCommunityTax", "store read of the distribution params"},
+	{"x/oracle/keeper.Keeper.AllocateTokens", "external:x/oracle/types.StakingKeeper.ValidatorByConsAddr", "looks up the block proposer, a bonded validator of this block"},
+}
+
+// hookErrTable: reviewed origins of errors the delegation hooks can return.
+var hookErrTable = []errAllow{
+	{"x/restake/keeper.Hooks.AfterDelegationModified", "external:x/restake/types.StakingKeeper.GetDelegatorBonded", "iterates the delegator's delegations in the staking store"},
+	{"x/restake/keeper.Hooks.BeforeDelegationRemoved", "external:x/restake/types.StakingKeeper.GetDelegatorBonded", "iterates the delegator's delegations in the staking store"},
+	{"x/restake/keeper.Hooks.BeforeDelegationRemoved", "external:x/restake/types.StakingKeeper.GetDelegation", "the delegation being removed exists (the hook runs before its deletion)"},
+	{"x/restake/keeper.Hooks.BeforeDelegationRemoved", "external:x/restake/types.StakingKeeper.GetValidator", "the validator of an existing delegation exists"},
 }
